@@ -469,6 +469,8 @@ func TestVerif_C19_BuildTotality(t *testing.T) {
 	}{
 		{reflect.TypeOf(bZooParseVal{}), "@@", true}, {reflect.TypeOf(&bZooParseVal{}), "@@", true}, {reflect.TypeOf(bZooParsePtr{}), "@@", true},
 		{reflect.TypeOf([]*bZooParsePtr{}), "@@*", true}, {reflect.TypeOf(bZooCapture{}), "@Ident", true}, {reflect.TypeOf(&bZooText{}), "@Ident", true},
+		{reflect.TypeOf([]bZooCapture{}), "@Ident*", true}, {reflect.TypeOf([]*bZooCapture{}), "@Ident*", true}, {reflect.TypeOf(&bZooCapture{}), "@Ident", true},
+		{reflect.TypeOf([]bZooText{}), "@Ident*", true}, {reflect.TypeOf([]*bZooText{}), "@Ident*", true}, {reflect.TypeOf(bZooText{}), "@Ident", true},
 		{reflect.TypeOf(lexer.Token{}), "@Ident", true}, {reflect.TypeOf([]lexer.Token{}), "@Ident*", true}, {reflect.TypeOf(&bZooRec{}), "@@", true},
 		{reflect.TypeOf([]string{}), "@Ident*", true}, {reflect.TypeOf(true), `@"x"?`, true}, {reflect.TypeOf(int8(0)), "@Int", true}, {reflect.TypeOf(float32(0)), "@Int", true},
 		{reflect.TypeOf(struct {
